@@ -878,7 +878,7 @@ def register(E):
         s = as_str(st, a[0]); frm = d(st, a[1]); to = as_str(st, a[2])
         c = frm.conc() if isinstance(frm, I) else None
         ln = z3.simplify(s.ln)
-        if c is None or c >= 0x80 or not z3.is_bv_value(ln) or ln.as_long() > 8:
+        if c is None or c >= 0x80 or not z3.is_bv_value(ln) or ln.as_long() > 12:
             raise Inconclusive('str::replace: symbolic / non-ASCII pattern or a text without a concrete short length')
         n = ln.as_long()
         import itertools as _it
